@@ -80,7 +80,8 @@ def strip_stats(st):
 def conc_case(args):
     sys.path.insert(0, os.path.dirname(os.path.dirname(os.path.abspath(__file__))))
     import conc
-    seed, tier = args
+    seed, tier = args[0], args[1]
+    forced = args[2] if len(args) > 2 else None
     rng = random.Random(seed)
     cfg = {'mfs': 8, 'policy': rng.choice(['lrs', 'none']), 'cull': 10, 'stats': 0}
     preset = [{'m': 'set', 'now': 1000, 'k': 'a', 'v': BIG1, 'ttl': None, 'tag': None},
@@ -104,8 +105,16 @@ def conc_case(args):
     programs = {0: block, 1: [small_op(False) for _ in range(rng.randint(1, 2))]}
     units = {0: [list(range(len(block)))], 1: [[i] for i in range(len(programs[1]))]}
     shared = rng.random() < 0.4
+    if forced:
+        # the windows around the end of a block: a block that aborts (or commits) on a SHARED object
+        # while the other thread writes a file-backed value; every single-preemption point of the block
+        abort, shared = forced['abort'], True
+        body = [small_op(True) for _ in range(forced['n'])]
+        block = [{'m': 'tbegin', 'now': 1000}] + body + [{'m': 'traise', 'now': 1000, 'n': 1} if abort else {'m': 'tend', 'now': 1000}]
+        programs = {0: block, 1: [{'m': 'set', 'now': 1000, 'k': forced['k'], 'v': BIG2, 'ttl': None, 'tag': None}]}
+        units = {0: [list(range(len(block)))], 1: [[0]]}
     out = []
-    bound = 18 if tier == 'quick' else 50
+    bound = (18 if tier == 'quick' else 50) if not forced else 45
     scheds = []
     for a, b in ((0, 1), (1, 0)):
         for k in range(0, bound):
@@ -130,8 +139,11 @@ def run(tier, seed, rng, known, replay):
     # (b) concurrent blocks
     n_cases = 24 if tier == 'quick' else 300
     seeds = [rng.getrandbits(48) for _ in range(n_cases)]
+    jobs = [(s, tier) for s in seeds]
+    for i, (abort, n, k) in enumerate([(True, 1, 'a'), (True, 2, 'b'), (False, 1, 'a'), (False, 2, 'b'), (True, 3, 'a'), (False, 3, 'b')]):
+        jobs.append((rng.getrandbits(48), tier, {'abort': abort, 'n': n, 'k': k}))
     with ProcessPoolExecutor(max_workers=16) as ex:
-        cases = list(ex.map(conc_case, [(s, tier) for s in seeds], chunksize=max(1, len(seeds) // 32)))
+        cases = list(ex.map(conc_case, jobs, chunksize=1))
     runs = 0
     for c in cases:
         for x in c['results']:
